@@ -1,4 +1,4 @@
-package main
+package main_test
 
 // Probe bias (DESIGN.md §2.2 item 4): an implementation of the public
 // model.Bias interface that records deep copies of the `original` and
